@@ -5,7 +5,7 @@
    succeeds, re_match = re.Pattern.match, i.e. anchored at the start), repr of a node (node_repr). *)
 From Oak Require Export Model.Encode.
 From Oak Require Import Base.Term.
-From Coq Require Import List ZArith Bool Ascii String.
+From Coq Require Import List ZArith Bool Ascii.
 Import ListNotations.
 
 (* ------------------------------------------------------------------ pattern syntax, as the grammar has it *)
